@@ -557,6 +557,38 @@ theorem binding_through_chain_resolved (w : World) (root : Str → Option Item) 
   simp [itemRemoved, Generated.C08.removedKinds]
 
 open Chain in
+/-- **A binding invoked through the result of a function is resolved** (the chain FORD records for
+    `associate (p => make(2))` ... `p % get()` is `make % get`: the selector is substituted for
+    the associate name).  `f` is a function of the scope whose result variable has the visible
+    derived type `t0`; then as in `binding_through_chain_resolved`.  The real `_find_chain_item`
+    raises instead when `f` has not been correlated yet (finding
+    `C08-chain-through-uncorrelated-function-raises`; with the candidate repair it returns what
+    this theorem says). -/
+theorem binding_through_function_result_resolved (w : World) (root : Str → Option Item) (f ty0 : Str)
+    (t0 t : TypeDef) (ls : List Str) (c owner : Str)
+    (hr : root f = some (.proc f (some ty0))) (h0 : findType w ty0 = some t0) (hp : CompPath w t0 ls t)
+    (hc : assoc t.comps c = none) (hpar : t.parents.contains c = false) (ht : findType w c = none)
+    (hb : assoc t.bound c = some owner) :
+    keepChain Generated.C08.labelOrder Generated.C08.removedKinds w root (f :: (ls ++ [c]))
+      = some (.item (.bound owner c)) := by
+  simp only [keepChain, findChain_path_fn w root f ty0 t0 t ls c hr h0 hp,
+    typeItem_bound w t c owner hc hpar ht hb]
+  simp [itemRemoved, Generated.C08.removedKinds]
+
+open Chain in
+/-- non-vacuity: `mk_t1 % get` and `mk_t1 % cells % fetch` over the generated tables -/
+example :
+    let t2 : TypeDef := { name := chars! "t2", bound := [(chars! "fetch", chars! "t2")] }
+    let t1 : TypeDef := { name := chars! "t1", bound := [(chars! "get", chars! "t1")], comps := [(chars! "cells", chars! "t2")] }
+    let w : World := { types := [t1, t2], procs := [(chars! "mk_t1", some (chars! "t1"))] }
+    let h : Scope.Host := { procs := [chars! "mk_t1"], types := [chars! "t1", chars! "t2"] }
+    keptAll w h { stmts := [] } [] [(chars! "mk_t1", some (chars! "t1"))]
+        [[chars! "mk_t1"], [chars! "mk_t1", chars! "get"], [chars! "mk_t1", chars! "cells", chars! "fetch"]]
+      = [.item (.proc (chars! "mk_t1") (some (chars! "t1"))), .item (.bound (chars! "t1") (chars! "get")),
+         .item (.bound (chars! "t2") (chars! "fetch"))] := by
+  decide +kernel
+
+open Chain in
 /-- **A chain whose first label is unknown in the scope stays as its last label** (a reference to
     a procedure FORD has not seen is kept by name, whatever the length of the chain). -/
 theorem unknown_root_chain_kept_by_name (order removed : List String) (w : World) (root : Str → Option Item)
